@@ -115,6 +115,13 @@ def run_invocation(spec):
         del os.environ[k]
     # as if `cond` were started from inside a task of an enclosing Conductor run
     os.environ.update(spec.get("outer_env") or {})
+    if (spec.get("proc") or {}).get("one_cpu"):
+        # pinned to one CPU (taskset / cpuset / container)
+        try:
+            cpus = sorted(os.sched_getaffinity(0))
+            os.sched_setaffinity(0, {cpus[spec["proc"].get("cpu_index", 0) % len(cpus)]})
+        except (OSError, AttributeError):
+            pass
     rng = random.Random(spec.get("seed", 0))
     sname = spec.get("strategy", "blocked-fifo")
     strategy = dict(STRATEGIES[sname])
